@@ -166,11 +166,15 @@ def run_async(coro_fn, timeout):
         return loop.run_until_complete(guarded())
     finally:
         try:
-            pending = [t for t in asyncio.all_tasks(loop) if not t.done()]
-            for t in pending:
-                t.cancel()
-            if pending:
-                loop.run_until_complete(asyncio.gather(*pending, return_exceptions=True))
+            # bounded: a task that answers a cancellation with yet another wait (a serving task whose clients never go)
+            # is cancelled again, a few times, and then abandoned
+            for _ in range(5):
+                pending = [t for t in asyncio.all_tasks(loop) if not t.done()]
+                if not pending:
+                    break
+                for t in pending:
+                    t.cancel()
+                loop.run_until_complete(asyncio.wait(pending, timeout=1.0))
         finally:
             asyncio.set_event_loop(None)
             loop.close()
@@ -262,6 +266,7 @@ def check_handshake_help(cls_name, width, pool_name="P", lines=None):
 
     async def scenario():
         wmod.reset()
+        W.forget_servers()
         pool = make_pool(ctx, pool_name)
         with Capture() as cap:
             s = W.MemSession(pool)
@@ -346,7 +351,7 @@ class ScriptRun:
             if v["kind"] in ("call", "get", "set"):
                 return await W.apply_verdict(self.twin, self.ctx["byname"], v)
             return None
-        o = W.MemSession(self.twin)
+        o = W.MemSession(self.twin, own_server=True)      # a fresh session of a fresh server: nobody else in its way
         await o.handshake(W.hello_line(self.case["width"]))
         o.start()
         r = await o.send(line)
@@ -631,6 +636,7 @@ class ScriptRun:
     async def scenario(self):
         case = self.case
         wmod.reset()
+        W.forget_servers()
         self.started_seen = 0
         self.bg = []
         self.pool = make_pool(self.ctx, "P")
